@@ -73,6 +73,15 @@ func c01Corpus() []c01issCase {
 		{Threads: []c01issThread{{Prog: "manage", Name: c01nmCanon, Decliner: true}, th("manage", c01nmCanon), th("obtain", c01nmCanon)}, Policy: "seq", Pause: map[string]string{"0": "IssueEnd:"}, Class: "generic"},
 		{Threads: []c01issThread{th("renew", c01nmCanon), {Prog: "renew", Name: c01nmCanon, Decliner: true}, {Prog: "manage", Name: c01nmCanon, Decliner: true}}, Seeds: []c01issSeed{{c01nmCanon, "due"}}, Policy: "seq", Pause: map[string]string{"0": "IssueEnd:"}, Class: "generic"},
 		{Threads: []c01issThread{{Prog: "obtain", Name: c01nmCanon, Decliner: true}, th("manage", c01nmCanon)}, Policy: "rr", Backend: "file", Class: "generic"},
+		// due by ARI alone (fresh leaf, stored renewal_info with a selected time in the past), renewed by an issuer that
+		// supplies no metadata: the saved bundle must not keep the old renewal information -- one issuance, the waiting
+		// and the late requests find the renewal done
+		{Threads: []c01issThread{{Prog: "renew", Name: c01nmCanon, NilMeta: true}, {Prog: "renew", Name: c01nmCanon, NilMeta: true}, {Prog: "renew", Name: c01nmCanon, NilMeta: true}},
+			Seeds: []c01issSeed{{c01nmCanon, "aridue"}}, Policy: "seq", Pause: map[string]string{"0": "IssueEnd:"}, Class: "generic"},
+		{Threads: []c01issThread{{Prog: "renew", Name: c01nmCanon, Async: true, NilMeta: true}, {Prog: "manage", Name: c01nmCanon, NilMeta: true}, {Prog: "renew", Name: c01nmCanon, NilMeta: true}},
+			Seeds: []c01issSeed{{c01nmCanon, "aridue"}}, Policy: "seq", Pause: map[string]string{"0": "IssueEnd:"}, Class: "generic"},
+		{Threads: []c01issThread{{Prog: "manage", Name: c01nmCanon, NilMeta: true}, {Prog: "manage", Name: c01nmCanon}}, Seeds: []c01issSeed{{c01nmCanon, "aridue"}}, Policy: "rr", Class: "generic"},
+		{Threads: []c01issThread{{Prog: "renew", Name: c01nmCanon, NilMeta: true}, {Prog: "renew", Name: c01nmCanon, NilMeta: true}}, Seeds: []c01issSeed{{c01nmCanon, "aridue"}}, Policy: "seq", Backend: "file", Class: "generic"},
 		// a request reaches the lock with a context that ends at that very moment; the Locker grants the free lock
 		// all the same (FileStorage looks at the context only while it waits): the request fails, releases, and the
 		// next request for the name takes its turn -- it must not find the lock held for ever
@@ -166,7 +175,7 @@ func c01Random(r *rand.Rand, tier string) c01issCase {
 		cs.Class, spelling = "spelling-different-locks", true
 		names = []string{c01nmUni, c01nmPuny, "BÜCHER.example", c01nmPuny}
 	}
-	seedKinds := []string{"", "", "", "fresh", "fresh", "due", "due", "due", "keyonly", "nokey", "nometa", "mismatch"}
+	seedKinds := []string{"", "", "", "fresh", "fresh", "due", "due", "due", "keyonly", "nokey", "nometa", "mismatch", "aridue", "aridue"}
 	sk := seedKinds[r.Intn(len(seedKinds))]
 	if spelling {
 		sk = []string{"", "", "due"}[r.Intn(3)]
@@ -181,6 +190,11 @@ func c01Random(r *rand.Rand, tier string) c01issCase {
 	for i := 0; i < nth; i++ {
 		t := c01issThread{Name: names[r.Intn(len(names))]}
 		switch p := r.Intn(10); {
+		case p < 4 && sk == "aridue":
+			// (the dueness of this bundle lives in its metadata, not in the leaf: an unlocked ManageSync load that
+			// straddles a save is not the model's "due certificate" any more -- renewals only here; ManageSync
+			// on such a bundle is in the corpus)
+			t.Prog, t.Async = "renew", r.Intn(3) == 0
 		case p < 4:
 			t.Prog = "manage"
 			if r.Intn(3) == 0 && !spelling {
@@ -189,7 +203,7 @@ func c01Random(r *rand.Rand, tier string) c01issCase {
 		case p < 7:
 			t.Prog, t.Async = "obtain", r.Intn(3) == 0
 		default:
-			if sk != "fresh" && sk != "due" {
+			if sk != "fresh" && sk != "due" && sk != "aridue" {
 				t.Prog = "obtain"
 			} else {
 				t.Prog, t.Async, t.Force = "renew", r.Intn(3) == 0, r.Intn(4) == 0
@@ -197,6 +211,7 @@ func c01Random(r *rand.Rand, tier string) c01issCase {
 		}
 		t.Reuse = r.Intn(4) == 0
 		t.NoChk = r.Intn(3) == 0
+		t.NilMeta = r.Intn(3) == 0
 		t.Decliner = !t.Async && r.Intn(8) == 0 // no faults of its own are injected into such an instance (hook)
 		t.IssDue = r.Intn(8) == 0
 		cs.Threads = append(cs.Threads, t)
@@ -204,7 +219,7 @@ func c01Random(r *rand.Rand, tier string) c01issCase {
 	// an on-demand handshake among the requests (one per case: handshakes of one process for one name wait
 	// for each other in memory before they reach the storage lock). Not with due certificates around: the
 	// handshake would renew them in a background goroutine.
-	if !spelling && cs.Class != "manage-load-overlaps-save" && sk != "due" && sk != "mismatch" && r.Intn(5) == 0 {
+	if !spelling && cs.Class != "manage-load-overlaps-save" && sk != "due" && sk != "aridue" && sk != "mismatch" && r.Intn(5) == 0 {
 		for i := range cs.Threads {
 			cs.Threads[i].IssDue, cs.Threads[i].Force = false, false
 		}
